@@ -257,6 +257,17 @@ def pins(rep, mod):
         rep.violate('C14.pin', mod, g, "n.split('/')", 'interconnects must split both endpoints into (instance, pin) at "/"', node=g)
 
 
+def depends(rep, repo):
+    """SDF entries meet their cells by instance name: how the Verilog parser spells instance names (escaped identifiers lose exactly the
+    backslash and the terminating blank) and inserts branch forks (C11.lexical, C11.names, C11.pins) is part of this check."""
+    from checks import c11
+    keep = (rep.explanation, rep.trusted, rep.assumptions, rep.exhaustive)
+    try:
+        c11.run(rep, repo)
+    finally:
+        rep.explanation, rep.trusted, rep.assumptions, rep.exhaustive = keep
+
+
 def thorough(rep, repo):
     """Thorough tier: the quick rules plus checker self-validation on the C14 slice of the mutation corpus."""
     from kvstatic import thorough as thorough_mod
